@@ -192,6 +192,28 @@ func runC11(rep Rep, c C11Case) {
 	// resume
 	s.C.UpdateSet(NS, s.Name, func(x *asv1.StatefulSet) { helper.SetPausedReconcile(x, false) })
 	s.logf("user: pause lowered")
+	// the un-pause reaches the controller as a set update event: it must wake the set up
+	{
+		q := s.C.Ctrl().VerifQueue()
+		for q.Len() > 0 {
+			k, _ := q.Get()
+			q.Done(k)
+			q.Forget(k)
+		}
+		s.C.RefreshSet(NS, s.Name, true)
+		woke := false
+		for q.Len() > 0 {
+			k, _ := q.Get()
+			if k.(string) == s.Key {
+				woke = true
+			}
+			q.Done(k)
+			q.Forget(k)
+		}
+		if !woke {
+			rep.Violate("pause/unpause-event-does-not-enqueue", "removing the pause annotation (an annotation-only update of the set) did not enqueue the set: it would not resume\n%s", s.Transcript())
+		}
+	}
 	for i := c.LowerAt; i < len(ops); i++ {
 		s.Run(&ops[i])
 	}
